@@ -111,6 +111,7 @@ var Snippets = []Snippet{
 	{[]string{"A", "B"}, "func st${N}() {\n\t_ = ${A}F(${A}V)\n\t_ = ${B}F2()\n\t_ = ${A}T{X: ${A}C}\n}"},
 	{[]string{"C", "E"}, "func st${N}() {\n\t_ = ${C}Do(${C}One)\n\t${E}Bar()\n}"},
 	{[]string{"D", "F"}, "func st${N}() {\n\t_ = ${D}DotObj.A\n\t_ = ${F}Baz() + ${D}DotF()\n}"},
+	{nil, "func useLocal${N}() int {\n\tv := LocalT{N: Exported}\n\treturn Helper() + v.N\n}"},
 	{[]string{"A"}, "func shadow${N}() int {\n\tV := struct{ F int }{F: 1}\n\treturn V.F + ${A}C\n}"},
 }
 
@@ -292,12 +293,18 @@ func GenProgram(r *rand.Rand, nfiles int) *Program {
 		fs.Src = RenderFile(fs, "self", i)
 	}
 	// one shared helper so that "local" snippets compile
-	p.Files[0].Src += "func helper() int { return 0 }\n"
+	p.Files[0].Src += "func helper() int { return 0 }\n\n// Exported members of the main package (referenced by moved code across packages).\nfunc Helper() int { return 1 }\n\nvar Exported = 2\n\ntype LocalT struct{ N int }\n"
 	return p
 }
 
 // Check parses and type-checks the files of the main package.
 func (p *Program) Check(srcs map[string]string, pkgPath string) ([]*ast.File, *types.Info, *types.Package, error) {
+	return p.CheckWith(srcs, pkgPath, nil)
+}
+
+// CheckWith is Check with additional importable packages (e.g. the main package itself when a file
+// of another package refers to its exported members).
+func (p *Program) CheckWith(srcs map[string]string, pkgPath string, extra map[string]*types.Package) ([]*ast.File, *types.Info, *types.Package, error) {
 	var files []*ast.File
 	var names []string
 	for n := range srcs {
@@ -312,7 +319,14 @@ func (p *Program) Check(srcs map[string]string, pkgPath string) ([]*ast.File, *t
 		files = append(files, f)
 	}
 	info := &types.Info{Uses: map[*ast.Ident]types.Object{}, Defs: map[*ast.Ident]types.Object{}, Selections: map[*ast.SelectorExpr]*types.Selection{}, Implicits: map[ast.Node]types.Object{}}
-	conf := types.Config{Importer: LibImporter()}
+	imp := Importer{}
+	for k, v := range LibImporter() {
+		imp[k] = v
+	}
+	for k, v := range extra {
+		imp[k] = v
+	}
+	conf := types.Config{Importer: imp}
 	pkg, err := conf.Check(pkgPath, p.Fset, files, info)
 	return files, info, pkg, err
 }
